@@ -38,6 +38,13 @@ func (b Bundle) Fragment(mtu int) (bs []Bundle, err error) {
 		return
 	}
 
+	// If this bundle is a fragment itself, its fragments still refer to the original bundle's payload.
+	fragmentOffsetBase, totalDataLength := 0, payloadBlockLen
+	if b.PrimaryBlock.HasFragmentation() {
+		fragmentOffsetBase = int(b.PrimaryBlock.FragmentOffset)
+		totalDataLength = int(b.PrimaryBlock.TotalDataLength)
+	}
+
 	// The first iteration is always executed; a bundle with an empty payload results in itself, not in an empty list.
 	for i := 0; i == 0 || i < payloadBlockLen; {
 		var (
@@ -45,7 +52,7 @@ func (b Bundle) Fragment(mtu int) (bs []Bundle, err error) {
 			primaryOverhead  int
 		)
 
-		if fragPrimaryBlock, primaryOverhead, err = fragmentPrimaryBlock(b.PrimaryBlock, i, payloadBlockLen); err != nil {
+		if fragPrimaryBlock, primaryOverhead, err = fragmentPrimaryBlock(b.PrimaryBlock, fragmentOffsetBase+i, totalDataLength); err != nil {
 			return
 		}
 
